@@ -101,18 +101,18 @@ func (l *loader) funcDecl(pkg, name string) *ast.FuncDecl {
 type lkind int
 
 const (
-	kInt    lkind = iota // Go int: unbounded Int
-	kSigned              // intN: Int with wrapS
-	kUnsigned            // uintN: Nat mod 2^bits
-	kWireType            // protowire.Type: Nat (0..7)
-	kByte                // byte: BitVec 8
+	kInt      lkind = iota // Go int: unbounded Int
+	kSigned                // intN: Int with wrapS
+	kUnsigned              // uintN: Nat mod 2^bits
+	kWireType              // protowire.Type: Nat (0..7)
+	kByte                  // byte: BitVec 8
 	kBool
 	kString
 	kList   // []T read-only view / value slice
 	kStruct // configured struct
 	kError  // error interface holding parseError
 	kFunc
-	kBuf // []byte written in place: EncLow.Buf (logical bytes + stale capacity)
+	kBuf   // []byte written in place: EncLow.Buf (logical bytes + stale capacity)
 	kMap   // map[K]V: Go.Map K V = Option (association list in iteration order); none = nil map
 	kFloat // float32/float64: the IEEE bit pattern (Nat); only moved around and passed to math.FloatNNbits/frombits
 	kOther
@@ -157,31 +157,31 @@ type fnCfg struct {
 	pkg, goName string // e.g. "storj.io/picobuf", "Decoder.nextField"
 	lean        string // Lean definition name (inside namespace Pico.GoSrc)
 	callbacks   map[string]cbCfg
-	fuel        []string // fuel expression per loop (in source order), over Lean variable names
-	pure        bool     // emit a non-monadic definition (single return expression, nothing can panic)
+	fuel        []string                    // fuel expression per loop (in source order), over Lean variable names
+	pure        bool                        // emit a non-monadic definition (single return expression, nothing can panic)
 	ifaces      map[string]map[string]cbCfg // interface-typed parameters: method name -> callback kind
-	idioms      []idiom  // recognised statement templates with their Lean emission
-	inout       map[string]bool // slice parameters written through (returned like pointer parameters)
-	nonNilRecv  bool     // `recv == nil` is False (the model is about non-nil receivers)
-	extra       string   // extra leading binders shared by the file (e.g. the re-allocation oracle)
-	extraArgs   string   // the corresponding arguments at call sites
-	rec         bool     // the function calls itself: it takes a fuel argument shared with its loops (mutual structural recursion)
-	callFuel    map[string]string // fuel expression for calls of recursive functions, by callee Go name
-	recvParam   string   // the parameter that plays the receiver (threaded through closures) instead of the Go receiver
-	auto        bool     // a helper without configuration, translated on demand with the defaults of its caller
+	idioms      []idiom                     // recognised statement templates with their Lean emission
+	inout       map[string]bool             // slice parameters written through (returned like pointer parameters)
+	nonNilRecv  bool                        // `recv == nil` is False (the model is about non-nil receivers)
+	extra       string                      // extra leading binders shared by the file (e.g. the re-allocation oracle)
+	extraArgs   string                      // the corresponding arguments at call sites
+	rec         bool                        // the function calls itself: it takes a fuel argument shared with its loops (mutual structural recursion)
+	callFuel    map[string]string           // fuel expression for calls of recursive functions, by callee Go name
+	recvParam   string                      // the parameter that plays the receiver (threaded through closures) instead of the Go receiver
+	auto        bool                        // a helper without configuration, translated on demand with the defaults of its caller
 }
 
 type golite struct {
-	l       *loader
-	structs map[string]structCfg // qualified Go type name -> cfg
-	prims   map[string]primCfg   // qualified Go function name -> cfg
-	fns     map[string]*fnCfg    // qualified Go function name -> cfg (translated functions)
-	zero    map[string]string    // Lean zero value per Go field type string (for composite literals)
-	stringsAsBytes bool          // Go strings are byte strings (wire level)
-	pending []*fnCfg             // helpers registered on demand, to be emitted before their first user
-	emitted map[*fnCfg]bool
-	tag     string // name of the file being emitted (suffix of its unfold_aux tactic)
-	stringValuesAsBytes bool     // variables of type string are byte strings; string constants stay texts (error messages)
+	l                   *loader
+	structs             map[string]structCfg // qualified Go type name -> cfg
+	prims               map[string]primCfg   // qualified Go function name -> cfg
+	fns                 map[string]*fnCfg    // qualified Go function name -> cfg (translated functions)
+	zero                map[string]string    // Lean zero value per Go field type string (for composite literals)
+	stringsAsBytes      bool                 // Go strings are byte strings (wire level)
+	pending             []*fnCfg             // helpers registered on demand, to be emitted before their first user
+	emitted             map[*fnCfg]bool
+	tag                 string // name of the file being emitted (suffix of its unfold_aux tactic)
+	stringValuesAsBytes bool   // variables of type string are byte strings; string constants stay texts (error messages)
 }
 
 func qualName(pkgPath, name string) string { return pkgPath + "." + name }
